@@ -242,6 +242,20 @@ fn run_input(w: &ChildWorld, kind: &str, bytes: &[u8]) -> (String, u64, String) 
             let _ = s2.add_attribute(qa("ZZ", "z"), hint(false), None);
             let _ = s2.serialize();
         }
+        // parse and inspect only (crafted inputs whose *use* is legitimately expensive)
+        "structure-parse" => {
+            let s = parse!(AccessStructure);
+            detail.push_str(&format!("a{}d{}", s.attributes().count(), s.dimensions().count()));
+        }
+        "mpk-parse" => {
+            let p = parse!(MasterPublicKey);
+            let _ = p.tracing_level();
+            detail.push_str(&format!("a{}d{}", p.access_structure.attributes().count(), p.access_structure.dimensions().count()));
+        }
+        "msk-parse" => {
+            let m = parse!(MasterSecretKey);
+            detail.push_str(&format!("a{}d{}", m.access_structure.attributes().count(), m.access_structure.dimensions().count()));
+        }
         "cleartext" => {
             let c = parse!(CleartextHeader);
             let _ = c.serialize();
